@@ -241,7 +241,8 @@ func (b *assignmentBuilder) createWithConverter(lhs, rhs bmodel.Node, converter 
 				return nil
 			}
 			argNode, ok = b.castNode(util.DerefPtr(converter.ArgType()), rhsNode)
-			if !ok {
+			if !ok || !isAddressable(argNode) {
+				// The converter is called with &arg: arg must be something an address can be taken of.
 				return nil
 			}
 		}
@@ -261,6 +262,19 @@ func (b *assignmentBuilder) createWithConverter(lhs, rhs bmodel.Node, converter 
 
 	logger.Warnf("%v: no assignment for %v [%v]", posStr, lhsExpr, b.imports.TypeName(lhs.ExprType()))
 	return gmodel.NoMatchField{LHS: lhsExpr}, nil
+}
+
+// isAddressable reports whether the address operator can be applied to the node's expression:
+// a variable, or a field of an addressable struct or of a struct reached through a pointer.
+// The result of a method call or of a conversion is not addressable.
+func isAddressable(n bmodel.Node) bool {
+	switch v := n.(type) {
+	case bmodel.RootNode:
+		return true
+	case bmodel.StructFieldNode:
+		return util.IsPtr(v.Parent().ExprType()) || isAddressable(v.Parent())
+	}
+	return false
 }
 
 // createWithMapper creates an assignment for the given lhs and rhs nodes using the
